@@ -264,4 +264,10 @@ def stepLineC (s : St) (toks : List String) : St × String :=
       | _, _ => (s, "bad-op")
   | _ => stepLine s toks
 
+/-- The driver keeps two independent sequences (two keys of one store): `k2 <request>` addresses the second. -/
+def stepLine2 (p : St × St) (toks : List String) : (St × St) × String :=
+  match toks with
+  | "k2" :: rest => let (s', a) := stepLineC p.2 rest; ((p.1, s'), a)
+  | _ => let (s', a) := stepLineC p.1 toks; ((s', p.2), a)
+
 end Hive.Seq.Conc
